@@ -44,6 +44,44 @@ CHECKS["C04"] = {
   "technique": "Coq proof (invariant by induction over op lists) + differential correspondence",
 }
 
+CHECKS["C15"] = {'design_ref': 'DESIGN.md section 6 C15, sections 2.1, 8, 10',
+ 'note': 'Axioms: exactly the four library axioms of Coq Reals/Flocq (ClassicalDedekindReals.sig_forall_dec, '
+         'ClassicalDedekindReals.sig_not_dec, FunctionalExtensionality.functional_extensionality_dep, '
+         'Classical_Prop.classic); none declared here. Trusted: Coq kernel, Flocq as the meaning of Rust f64 '
+         'arithmetic, hand-written model, extraction, OCaml driver (B754<->float bits), Rust harness, '
+         'generators. libm oracles for RUNNING the model only: powf = OCaml Float.pow (glibc pow, the symbol '
+         'Rust calls); cbrt = exact correctly-rounded cube root in Gallina (Cubic/Libm.v) because Rust 1.95 '
+         "f64::cbrt is compiler-builtins' CORE-MATH port (correctly rounded) and differs from glibc/OCaml "
+         'Float.cbrt by 1 ulp on about half of all inputs (DESIGN section 10 anticipated this; resolved '
+         'without restricting cases). Partial: byte-level slow-start bound and the MSS-change clause of '
+         'c15_obs_ok are validated on traces, not proved. Window bounds hold once the peer window has been '
+         're-applied after an MSS change: between set_mss and the next set_remote_window the stored window '
+         "(MSS units) is stale and window() can exceed the peer window when 2*mss' > win (Example "
+         'stale_rwnd_after_mss_increase; stream_dispatch.rs:1251). Correspondence is differential testing: a '
+         'behavioural difference on an input never generated is not seen.',
+ 'technique': 'Coq proof over Flocq binary64 (case analysis on float classes, monotonicity of rounding, '
+              'relative error) + differential correspondence model vs impl + extracted predicate on impl '
+              'traces',
+ 'text': 'Model: src/congestion/cubic.rs over Flocq 4.1.0 binary64 (f64::max/min, `as usize`, `usize as '
+         'f64`, Duration::as_secs_f64 and the compile-time constants written out); cbrt and powf(.,3.) are '
+         'universally quantified functions with no hypothesis. Theorems (Props/C15.v): c15_window_bounds - '
+         'for EVERY float state (NaN, +-inf included), 1 <= mss < 2^16, win < 2^32, after set_remote_window '
+         'win the byte window is an integer in [min(2 mss, win) - 1, win] (the -1 is float-to-integer '
+         'truncation, tight: Example win 5 mss 1232 -> 4); c15_window_clamp_exact - min(max(cwnd,2),rwnd) '
+         'exact in MSS units for every float cwnd; c15_loss_never_increases - for every cwnd (NaN/inf '
+         'included) and finite peer window, RTO and enter-recovery never increase window() nor the clamped '
+         'cwnd, set ssthresh = max(fl(cwnd*0.7),2), sshthresh() >= 2 mss; c15_loss_cwnd_mss_units - '
+         "real-valued form for finite cwnd >= 0 (0.7 = 6305039478318694/2^53); c15_set_mss_rescales - cwnd' "
+         "= fl(cwnd*fl(mss/mss')), cwnd' mss' = cwnd mss (1+d), |d| <= 3*2^-53, never a reset; "
+         "c15_slow_start_growth_partial - PARTIAL: slow-start growth proved in MSS units (cwnd' = "
+         "max(min(fl(cwnd+fl(len/mss)),rwnd),2)); the byte-level bound window' <= window+len+1 is not a "
+         'theorem, it is a clause of the extracted predicate c15_obs_ok evaluated on every implementation '
+         'trace; c15_model_trace_core_ok - the rounding-independent clauses of c15_obs_ok hold on every '
+         'model trace (induction over op lists, any cbrt/powf). Tie to the real Cubic: differential runs '
+         'through the CongestionController trait (window(), sshthresh(), smss() after every call, integers '
+         'only) on generated event sequences incl. congestion-avoidance runs; a second component compares '
+         'the bit patterns of the real f64::cbrt / f64::powf(.,3.) with the oracles used to run the model.'}
+
 ALL = ["C%02d" % i for i in range(1, 20)]
 NOT_APPLICABLE = {p: "check not built yet at this commit (planned: DESIGN.md section 6); not claimed"
                   for p in ALL if p not in CHECKS}
